@@ -53,7 +53,7 @@ for _ty in (str, bytes, bytearray, tuple, frozenset, int, list, dict, set):
     SAFE_METHODS.setdefault(_ty, set()).update(n for n in dir(_ty) if not n.startswith("_"))
     SAFE_METHODS[_ty].update({"__getitem__", "__contains__", "__len__"} & set(dir(_ty)))
 SAFE_TYPE_ATTRS = {bytes: {"fromhex"}, int: {"from_bytes"}, dict: {"fromkeys"}}
-SAFE_MODULES = {"base64", "re", "math", "string"}
+SAFE_MODULES = {"base64", "re", "math", "string", "unicodedata", "binascii"}
 
 
 class OpVal:
@@ -622,10 +622,26 @@ class MiniEval:
         except (ValueError, TypeError, SyntaxError, MemoryError, RecursionError):
             return None
 
+    def _imports_module(self, e: ast.Name) -> bool:
+        """the fragment's module (or an enclosing function) has `import <name>` for a pure standard-library module"""
+        n = e
+        while getattr(n, "parent", None) is not None:
+            n = n.parent
+            body = getattr(n, "body", None)
+            if isinstance(body, list):
+                for st in body:
+                    if isinstance(st, ast.Import) and any((a.asname or a.name) == e.id and a.name == e.id for a in st.names):
+                        return True
+        return False
+
     def _ask(self, e: ast.AST) -> Any:
         try:
             v = self.oracle(e, self)
         except Unknown:
+            if isinstance(e, ast.Name) and e.id in SAFE_MODULES and self._imports_module(e):
+                import importlib
+
+                return importlib.import_module(e.id)
             if isinstance(e, ast.Name):
                 g = self._module_global(e)
                 if g is not None:
